@@ -105,14 +105,22 @@ def _match_round(base, cur, known):
         bm = base['fns'][m]
         for c in new:
             bc = cur['fns'][c]
-            if bm['sig'] != bc['sig'] or bm['argc'] != bc['argc'] or (bm['impl_trait'] or None) != (bc['impl_trait'] or None):
+            if (bm['impl_trait'] or None) != (bc['impl_trait'] or None):
                 continue
+            same_sig = bm['sig'] == bc['sig'] and bm['argc'] == bc['argc']
+            if not same_sig:
+                # a changed private signature (free function -> method, tuple -> struct result, reordered parameters): accepted only
+                # when the function body evidently is the same one - (nearly) identical sets of external callees, and enough of them
+                if bm['argc'] != bc['argc'] or len(bm['ext']) < 4 or _jaccard(bm['ext'], bc['ext']) < 0.85:
+                    continue
             cloc = [known.get(x, x) for x in bc['loc']]
             # callees that disappeared altogether (inlined helpers) do not count against the match
             bloc = [x for x in bm['loc'] if x in cur['fns'] or x in known.values()]
             sim = 0.7 * _jaccard(bm['ext'], bc['ext']) + 0.3 * _jaccard(map(last, bloc), map(last, [x for x in cloc if x in base['fns']]))
             if last(m) == last(c) or m.rsplit('::', 1)[0] == c.rsplit('::', 1)[0]:
                 sim += 0.15      # a function that only moved keeps its name; one that was only renamed keeps its module
+            if not same_sig:
+                sim -= 0.1
             cands.append((sim, m, c))
     cands.sort(reverse=True)
     out = dict(known)
@@ -186,7 +194,7 @@ def normalise_text(text, cfg):
     if fa:
         for new, old in sorted(fa.items(), key=lambda kv: -len(kv[0])):
             text = re.sub(r'(?<![\w:])' + re.escape(new) + r'(?![\w])', old.replace('\\', '\\\\'), text)
-            notes.append(f"function {new} is the baseline's {old} (same signature, similar callees)")
+            notes.append(f"function {new} is the baseline's {old} (same signature and similar callees, or the same callees)")
         j = json.loads(text)
     fld = match_fields(base, cur)
     if fld:
